@@ -125,44 +125,46 @@ def functionals(rep, tier, timeout):
         run_obligations(rep, "CenterOfGravity[%s]" % tag, obs, timeout,
                         replay=lambda ob, env, sc=sc, ins=ins: (None, "derived identity") if ob.meta.get("no_replay") else comp_replay(sc, ins, None)(ob, env),
                         family=lambda ob: "CenterOfGravity: " + ob.meta["family"])
-        # ---- MomentCoefficient
-        sc = SymComp("functionals.moment_coefficient", "MomentCoefficient", surfaces=ss)
-        rep.encode(type(sc.comp))
-        ins = sc.inputs()
-        o = sc.sym1(ins)
-        cg = ins["cg"]
-        Mref = [ZERO, ZERO, ZERO]
-        for j, s in enumerate(ss):
-            nm = s["name"]
-            b = ins[nm + "_b_pts"]
-            F = ins[nm + "_sec_forces"]
-            nxm, nym = F.shape[0], F.shape[1]
-            m = [ZERO, ZERO, ZERO]
-            for i in range(nxm):
-                for jj in range(nym):
-                    p = [(b[i, jj + 1, k] + b[i, jj, k]) * S(0.5) - cg[k] for k in range(3)]
-                    f = [F[i, jj, k] for k in range(3)]
-                    m[0] = m[0] + p[1] * f[2] - p[2] * f[1]
-                    m[1] = m[1] + p[2] * f[0] - p[0] * f[2]
-                    m[2] = m[2] + p[0] * f[1] - p[1] * f[0]
-            if s["symmetry"]:
-                m = [ZERO, m[1] * 2, ZERO]  # documented convention: both halves, x/z moments cancel
-            Mref = [Mref[k] + m[k] for k in range(3)]
-            if j == 0:
-                ch = ins[nm + "_chords"]
-                w = ins[nm + "_widths"]
-                pc = [(ch[t + 1] + ch[t]) * S(0.5) for t in range(len(w))]
-                MAC = sum((pc[t] * pc[t] * w[t] for t in range(len(w))), ZERO) / ins[nm + "_S_ref"][0]
+        # ---- MomentCoefficient (in the order given and in the reverse order: the symmetry convention of one surface must not
+        # touch what the surfaces before it contributed)
+        for ss_m, tag_m in ([(ss, tag)] + ([(ss[::-1], tag + ", reverse order")] if n >= 2 else [])):
+            sc = SymComp("functionals.moment_coefficient", "MomentCoefficient", surfaces=ss_m)
+            rep.encode(type(sc.comp))
+            ins = sc.inputs()
+            o = sc.sym1(ins)
+            cg = ins["cg"]
+            Mref = [ZERO, ZERO, ZERO]
+            for j, s in enumerate(ss_m):
+                nm = s["name"]
+                b = ins[nm + "_b_pts"]
+                F = ins[nm + "_sec_forces"]
+                nxm, nym = F.shape[0], F.shape[1]
+                m = [ZERO, ZERO, ZERO]
+                for i in range(nxm):
+                    for jj in range(nym):
+                        p = [(b[i, jj + 1, k] + b[i, jj, k]) * S(0.5) - cg[k] for k in range(3)]
+                        f = [F[i, jj, k] for k in range(3)]
+                        m[0] = m[0] + p[1] * f[2] - p[2] * f[1]
+                        m[1] = m[1] + p[2] * f[0] - p[0] * f[2]
+                        m[2] = m[2] + p[0] * f[1] - p[1] * f[0]
                 if s["symmetry"]:
-                    MAC = MAC * 2
-        q = S(0.5) * ins["rho"][0] * ins["v"][0] ** 2
-        obs = idents("M", o["M"], Mref, meta={"out": "M", "family": "M = sum (b - cg) x F"})
-        obs += idents("CM", o["CM"], [Mref[k] / (q * ins["S_ref_total"][0] * MAC) for k in range(3)],
-                      meta={"out": "CM", "family": "CM = M / (q S_ref MAC_0)"})
-        for ob in obs:
-            ob.meta["k"] = ob.meta["idx"][0]
-        run_obligations(rep, "MomentCoefficient[%s]" % tag, obs, timeout, replay=comp_replay(sc, ins, None),
-                        family=lambda ob: "MomentCoefficient: " + ob.meta["family"])
+                    m = [ZERO, m[1] * 2, ZERO]  # documented convention: both halves, x/z moments cancel
+                Mref = [Mref[k] + m[k] for k in range(3)]
+                if j == 0:
+                    ch = ins[nm + "_chords"]
+                    w = ins[nm + "_widths"]
+                    pc = [(ch[t + 1] + ch[t]) * S(0.5) for t in range(len(w))]
+                    MAC = sum((pc[t] * pc[t] * w[t] for t in range(len(w))), ZERO) / ins[nm + "_S_ref"][0]
+                    if s["symmetry"]:
+                        MAC = MAC * 2
+            q = S(0.5) * ins["rho"][0] * ins["v"][0] ** 2
+            obs = idents("M", o["M"], Mref, meta={"out": "M", "family": "M = sum (b - cg) x F"})
+            obs += idents("CM", o["CM"], [Mref[k] / (q * ins["S_ref_total"][0] * MAC) for k in range(3)],
+                          meta={"out": "CM", "family": "CM = M / (q S_ref MAC_0)"})
+            for ob in obs:
+                ob.meta["k"] = ob.meta["idx"][0]
+            run_obligations(rep, "MomentCoefficient[%s]" % tag_m, obs, timeout, replay=comp_replay(sc, ins, None),
+                            family=lambda ob: "MomentCoefficient: " + ob.meta["family"])
     # ---- ReynoldsComp
     sc = SymComp("common.reynolds_comp", "ReynoldsComp")
     rep.encode(type(sc.comp))
